@@ -6,7 +6,8 @@ VAR = {"press": "one-shot-press", "release": "one-shot-release",
 K = lambda k: {"t": "key", "k": k}
 
 
-def make(variant, T, red, kind="key", nos=1, keys=("a", "b", "c")):
+def make(variant, T, red, kind="key", nos=1, keys=("a", "b", "c"), T2=None):
+    """T2: timeout of the second one-shot key when it differs from the first one's"""
     oskeys = list(keys[:nos])
     others = list(keys[nos:])
     outs = {"b": "y", "c": "z", "d": "1"}
@@ -14,13 +15,14 @@ def make(variant, T, red, kind="key", nos=1, keys=("a", "b", "c")):
     if kind == "chord":
         osact["a"] = ({"t": "chord", "mods": ["lctl"], "k": "lalt"}, ["lctl", "lalt"])
     layer = {}
+    tof = {k: (T2 if (T2 is not None and i == 1) else T) for i, k in enumerate(oskeys)}
     for k in oskeys:
-        layer[k] = {"t": "os", "variant": VAR[variant], "timeout": T, "a": osact[k][0]}
+        layer[k] = {"t": "os", "variant": VAR[variant], "timeout": tof[k], "a": osact[k][0]}
     for k in others:
         layer[k] = K(outs[k])
     desc = {"keys": list(keys), "layers": [layer], "defcfg": {"rapid-event-delay": red}}
-    params = {"oskeys": [{"c": cfgdesc.code(k), "qs": [cfgdesc.code(q) for q in osact[k][1]]} for k in oskeys],
-              "variant": variant, "T": T, "red": red,
+    params = {"oskeys": [{"c": cfgdesc.code(k), "qs": [cfgdesc.code(q) for q in osact[k][1]], "T": tof[k]} for k in oskeys],
+              "variant": variant, "T": max(tof.values()), "red": red,
               "others": [{"c": cfgdesc.code(k), "o": cfgdesc.code(outs[k])} for k in others]}
     return desc, params
 
@@ -28,8 +30,9 @@ def make(variant, T, red, kind="key", nos=1, keys=("a", "b", "c")):
 def family(tier):
     F = []
     if tier == "quick":
-        combos = [("press", 3, 1, "key", 1), ("release", 3, 1, "key", 1), ("press-pcancel", 2, 1, "key", 1),
-                  ("release-pcancel", 3, 0, "key", 1), ("press", 2, 2, "chord", 1), ("press", 3, 1, "key", 2)]
+        # (the T3 / two-equal-timeout instances of the earlier quick family live in the thorough tier)
+        combos = [("press", 2, 1, "key", 1), ("release", 3, 1, "key", 1), ("press-pcancel", 2, 1, "key", 1),
+                  ("release-pcancel", 2, 0, "key", 1), ("press", 2, 2, "chord", 1)]
     else:
         combos = [(v, T, r, "key", 1) for v in VAR for T in (2, 4) for r in (0, 2)] + \
                  [(v, 3, 1, "chord", 1) for v in VAR] + [(v, 3, 1, "key", 2) for v in VAR] + \
@@ -38,6 +41,10 @@ def family(tier):
         keys = ("a", "b", "c")
         name = "%s_T%d_r%d_%s_n%d" % (v.replace("-", ""), T, r, kind, nos)
         F.append((name, make(v, T, r, kind, nos, keys)))
+    # two one-shot keys with DIFFERENT timeouts: the timeout in force is the one of the key tapped last
+    two = [("press", 4, 2)] if tier == "quick" else [("press", 4, 2), ("release", 4, 2), ("press", 2, 4), ("press-pcancel", 4, 2)]
+    for (v, Ta, Tb) in two:
+        F.append(("%s_T%d_T%d_r1_key_n2" % (v.replace("-", ""), Ta, Tb), make(v, Ta, 1, "key", 2, ("a", "b", "c"), T2=Tb)))
     return F
 
 
@@ -108,6 +115,18 @@ def run(tier, seed):
             scripts += [rand_history(rng, keys, rng.randint(6, 40), [0, 1, 2, 5, 39, 40, 41, 80], tail=120)
                         for _ in range(20 if tier == "quick" else 200)]
             jobs_random.append({"cfg": kbd, "params": params, "tag": "T40:%s:%s" % (v, kind), "scripts": scripts})
+    for v in VAR:
+        desc, params = make(v, 60, 1, "key", 2, ("a", "b", "c"), T2=20)
+        kbd = cfgdesc.render_kbd(desc)
+        keys = [cfgdesc.code(k) for k in desc["keys"]]
+        a_, b_, c_ = keys
+        tap = lambda k: [["d", k], ["t", 1], ["u", k], ["t", 1]]
+        scripts = [tap(a_) + tap(b_) + [["t", 30]] + tap(c_) + [["t", 150]],          # long then short: expires with the short one
+                   tap(b_) + tap(a_) + [["t", 30]] + tap(c_) + [["t", 150]],          # short then long: still active
+                   tap(a_) + [["t", 30]] + tap(b_) + [["t", 15]] + tap(c_) + [["t", 150]]]
+        scripts += [rand_history(rng, keys, rng.randint(6, 30), [0, 1, 2, 19, 20, 21, 59, 60, 61], tail=150)
+                    for _ in range(15 if tier == "quick" else 150)]
+        jobs_random.append({"cfg": kbd, "params": params, "tag": "T60_20:%s" % v, "scripts": scripts})
     for label, jobs in (("witness", witness_jobs), ("random", jobs_random)):
         if not jobs:
             continue
